@@ -185,7 +185,7 @@ func checkC01() func(w *SketchWorld, slot int) []mc.Fail {
 					x = xs[n-1]
 				}
 				want, alt := binValue(wm, x)
-				if y != want && y != alt {
+				if y != want && y != alt && !sameBin(wm, y, want) {
 					fails = append(fails, mc.Fail{Clause: "C01.extreme-bin", Detail: fmt.Sprintf("%s, %s store, input %v: q=%v answered %v, the bin of the true extreme %v is %v", ws, w.S[slot].Store, xs, p, y, x, want)})
 					return
 				}
@@ -193,6 +193,23 @@ func checkC01() func(w *SketchWorld, slot int) []mc.Fail {
 		}
 		return
 	}
+}
+
+// sameBin: y lies in the bin whose representative is rep (same sign, same
+// index; 0 only with 0). The properties say "the bin of", not "the
+// representative of the bin of".
+func sameBin(m mapping.IndexMapping, y, rep float64) bool {
+	if y == rep {
+		return true
+	}
+	if y == 0 || rep == 0 || (y < 0) != (rep < 0) {
+		return false
+	}
+	ay, ar := math.Abs(y), math.Abs(rep)
+	if ay < m.MinIndexableValue() || ay > m.MaxIndexableValue() {
+		return false
+	}
+	return m.Index(ay) == m.Index(ar)
 }
 
 // binValue: the representative of the bin holding x (0 for the zero bucket);
@@ -282,8 +299,8 @@ func checkC12() func(w *SketchWorld, slot int) []mc.Fail {
 				k, _ := md.Neg.Min()
 				wantMax = -wm.Value(k)
 			}
-			if mn != wantMin || mx != wantMax {
-				fail("C12.extremes", "min=%v max=%v, the bins of the (clamped) extremes are %v and %v", mn, mx, wantMin, wantMax)
+			if !sameBin(wm, mn, wantMin) || !sameBin(wm, mx, wantMax) {
+				fail("C12.extremes", "min=%v max=%v, the bins of the (clamped) extremes are those of %v and %v", mn, mx, wantMin, wantMax)
 			}
 			if !bounded {
 				if !matchesValue(wm, alpha, mn, xs[0], "C12 extreme accuracy") || !matchesValue(wm, alpha, mx, xs[len(xs)-1], "C12 extreme accuracy") {
